@@ -615,6 +615,14 @@ fn app_case(case_no: usize, rng: &mut Rng, rep: &mut Report) {
                         rep.violate(&format!("C10|app|{kind}|result-differs-from-unlimited"), format!("L5 {name}: route {} differs from the unlimited route {}", r["route"]["path"], u["route"]["path"]), replay);
                         continue;
                     }
+                    // L3 a zero runtime budget is exhausted at every scheduled check: a search long enough to reach
+                    // two of them cannot come back with an answer
+                    if let TermCfg::Runtime { limit_ms: 0, frequency } = &term {
+                        if u["iterations"].as_u64().unwrap_or(0) >= 2 * frequency + 2 {
+                            rep.violate("C10|app|runtime|exhausted-budget-not-enforced", format!("L3 {name}: the search ran {} iterations and returned a route", u["iterations"]), replay);
+                            continue;
+                        }
+                    }
                     rep.count("app_answers_identical_to_unlimited", 1);
                     if let TermCfg::Iterations(l) = &term {
                         iter_ok.entry(qid.to_string()).or_default().push((*l, true));
